@@ -91,6 +91,13 @@ def run(ctx, R):
     # formatter / parser agreement on keyword and field order: parser side
     v1model.c01_provenance_only(ctx, R, 'C08.F')
     C16mod.fromstr_delegation(ctx, R, 'C08.S')
+    # the auto-detecting entry point reaches the text parser for every text line: the v2 parser rejects anything that does not carry its
+    # signature with the terminal Prefix error, whatever the length (rows of the v2 decision table), and parse() then returns V1(v1 result)
+    from rules import v2common, C06 as C06mod
+    from spec import classify
+    v2common.run_v2_table(ctx, R, 'C08', 'C08.V')
+    C06mod.auto_table(ctx, R, 'C08.V', only=['v2 terminal'])
+    classify.classification(ctx, R, 'C08.V', only='terminal', enums=[tables.V2_ERR])
     # canonical lines are not rejected: at the level of token predicates the parser rejects no line satisfying the acceptance condition,
     # and a formatted line satisfies it (Display of u16 has no sign / leading zero and parses back: axiom)
     v1model.c01_accept(ctx, R, 'C08.A', soundness=False)
